@@ -92,6 +92,44 @@ def _cases(draw, tier):
     }
 
 
+def fixed_cases(tier):
+    """More than 255 operations on one machine, and a job with more than 255
+    operations (narrow counters must not wrap); completion and remaining
+    operations observers only, to keep the case cheap."""
+    n = 260
+    wide = {
+        "durations": [[1 + j % 3] if j % 20 else [2, 1] for j in range(n)],
+        "machines": [[[0]] if j % 20 else [[0], [1]] for j in range(n)],
+        "name": "wide",
+        "meta": {},
+        "ints": True,
+        "family": "fixed",
+    }
+    long_job = {
+        "durations": [[1 + p % 2 for p in range(n)], [2, 3]],
+        "machines": [[[p % 2] for p in range(n)], [[1], [0]]],
+        "name": "long_job",
+        "meta": {},
+        "ints": True,
+        "family": "fixed",
+    }
+    return [
+        {
+            "inst": inst,
+            "filters": None,
+            "history": [[(7 * k) % 5, 0] for k in range(40)],
+            "observers": [["is_completed", None, 0], ["remaining_operations", None, 1]],
+            "composite": [0, 1],
+            "composite_cfgs": [["is_completed", None, 2]],
+            "resets": [],
+            "consumers": 1,
+            "bystanders": 0,
+            "fork": None,
+        }
+        for inst in (wide, long_job)
+    ]
+
+
 def strategy(tier):
     return _cases(tier)
 
